@@ -256,7 +256,7 @@ func (d *Driver) report() int {
 	// known findings
 	var knownLines []string
 	for _, k := range d.known {
-		if k.Status != "known" || (d.Prop != "" && !hasTag(k.Properties, d.Prop)) {
+		if k.Status != "known" || (d.Prop != "" && !literalTag(k.Properties, d.Prop)) {
 			continue
 		}
 		if d.witnessStillFails(k) {
@@ -481,6 +481,22 @@ func (d *Driver) writeInventory(results []oblResult) {
 			fresh[t][stripTarget(r.Name)] = true
 		}
 	}
+	if b, err := os.ReadFile(filepath.Join(d.Verif, "aliases.json")); err == nil {
+		var al map[string][]string
+		if json.Unmarshal(b, &al) == nil {
+			for alias, ts := range al {
+				u := map[string]bool{}
+				for _, t := range ts {
+					for k := range fresh[t] {
+						if strings.HasPrefix(k, "rt:") {
+							u[k] = true
+						}
+					}
+				}
+				fresh[alias] = u
+			}
+		}
+	}
 	for t, m := range fresh {
 		if d.Prop != "" && t != d.Prop {
 			continue
@@ -505,4 +521,13 @@ func (d *Driver) writeInventory(results []oblResult) {
 	}
 	hb, _ := json.MarshalIndent(hints, "", " ")
 	os.WriteFile(filepath.Join(d.Verif, "solver_hints.json"), hb, 0o644)
+}
+
+func literalTag(tags []string, p string) bool {
+	for _, t := range tags {
+		if t == p {
+			return true
+		}
+	}
+	return false
 }
